@@ -93,6 +93,8 @@ class Profile:
     unaligned_pins: bool = False
     rates: bool = False
     day_efforts: bool = True
+    start_tod: bool = False  # project start with a time of day (slot-aligned)
+    alap_chains: bool = False  # task-level ALAP anchors may have predecessor chains (some of them declared alap without end)
     alap_always: bool = False  # with alap_project: every generated project is a backward project
     unequal_teams: bool = False  # teams whose members have different efficiencies (C12 only)
     year_end_holidays: bool = False  # global shutdown across New Year when the horizon contains one
@@ -180,7 +182,10 @@ def _aligned_dt(draw, base: datetime, span_days: int, res_min: int, daytime: boo
         m = draw(st.integers(8 * 60 // res_min, 18 * 60 // res_min)) * res_min
     else:
         m = draw(st.integers(0, 1440 // res_min - 1)) * res_min
-    return (base.replace(hour=0, minute=0) + timedelta(days=d, minutes=m))
+    out = base.replace(hour=0, minute=0) + timedelta(days=d, minutes=m)
+    if out < base:  # the base (project start) may carry a time of day: never before it
+        out += timedelta(days=1)
+    return out
 
 
 TYPICAL_STARTS = [
@@ -214,6 +219,9 @@ def project_specs(draw, pf: Profile):
         start = draw(st.sampled_from(TYPICAL_STARTS))
     if pf.starts and dst_zone is None:
         start = draw(st.sampled_from(pf.starts))
+    if pf.start_tod and draw(st.booleans()):
+        # the project (and with it every slot table and limit interval) begins in the middle of a day
+        start = start.replace(hour=0, minute=0) + timedelta(minutes=res_min * draw(st.integers(1, 1440 // res_min - 1)))
     weeks = draw(st.integers(*pf.weeks))
     spec = ProjectSpec(start=start, dur=(weeks, "w"), res_min=res_min)
     span = weeks * 7
@@ -549,9 +557,17 @@ def project_specs(draw, pf: Profile):
                 c.end = _aligned_dt(draw, start + timedelta(days=span // 2), max(1, span // 2 - 1), res_min, daytime=True)
     elif pf.alap_task:
         for p, t in leaves_:
-            if p not in has_succ and not t.deps and t.start is None and not t.milestone and draw(st.integers(0, 3)) == 0:
+            ok_deps = (not t.deps) or (pf.alap_chains and all(not d.onstart for d in t.deps))
+            if p not in has_succ and ok_deps and t.start is None and not t.milestone and draw(st.integers(0, 3)) == 0:
                 t.sched = "alap"
                 t.end = _aligned_dt(draw, start + timedelta(days=span // 2), max(1, span // 2 - 1), res_min, daytime=True)
+                if pf.alap_chains:
+                    # some direct predecessors say 'scheduling alap' themselves (without a date)
+                    tm_ = dict(nodes)
+                    for d in t.deps:
+                        q = tm_.get(d.target)
+                        if q is not None and not q.children and q.start is None and not q.milestone and draw(st.booleans()):
+                            q.sched = "alap"
     return spec
 
 
